@@ -184,3 +184,34 @@ Definition sched_check (c : cfg) (s0 : st) (setup : list ccall) (progs : list (l
            end
   | _, _ => -2
   end.
+
+(* ------------------------------------------------------------------ a client killed at an event boundary
+   One client (number 0) runs `prog`; `events` are the visible tags of everything it executed before the
+   kill.  The machine follows them, takes the client's silent moves (a call whose last event has executed has
+   returned), applies `crash`, and must then agree with what the parent process found: the outcomes of the
+   calls that had returned, and the rows, counters and files (partial ones included) on disk.
+   result: -1 agreement; -2 outside the instance; n >= 0 the n-th event cannot be followed;
+   -3 the outcomes of the finished calls differ; -100 the disk differs.
+   inflight: a call had started and not returned.  Its last visible step may already have executed (what
+   remained were steps invisible to the machine, e.g. pruning an empty directory): the machine then counts it
+   as returned, the parent process does not. *)
+Definition outcomes_match_upto (l : list (outcome result)) (x : list seen) (inflight : bool) : bool :=
+  outcomes_match l x || (inflight && outcomes_match (removelast l) x && negb (is_nil l)).
+
+Definition crash_check (c : cfg) (s0 : st) (setup prog : list ccall) (events : list (nat * tag))
+           (seen0 : list seen) (inflight : bool) (final : obs) : Z :=
+  match compile_all c setup, compile_all c prog with
+  | Some su, Some p =>
+      let c0 := init_config s0 (prog_fun [p] su) in
+      let c1 := solo (20 * S (length su)) c0 1 in
+      if negb (finished c1 1) then -2
+      else match feed c1 0 events with
+           | inr k => k
+           | inl c2 =>
+               let c3 := crash (settle SILENT_FUEL c2 0) 0 in
+               if outcomes_match_upto (c_done (cl c3 0)) seen0 inflight
+               then (if disk_matches c3 final then -1 else -100)
+               else -3
+           end
+  | _, _ => -2
+  end.
